@@ -144,6 +144,11 @@ def rule_comparison_pair(A, R, rule):
                                     bad.append("%s value is a per-dependency record into another job than the one named second" % which)
                                 if ida is not None and idb is not None and sa is not None and sb is not None and sa == idb and sb == ida and sa != sb:
                                     bad.append("the two ids are passed in the wrong order")
+                                a1_ = v["args"][1]
+                                if a1_ is not None and a1_[0] == "str" and a1_[1] and all(p_[0] == "const" for p_ in a1_[1]):
+                                    # the comparison may depend on who consumes the value (a consumer reads only part of it)
+                                    bad.append("%s value is a per-dependency record, but the consumer is not named (a fixed marker is passed "
+                                               "as second id)" % which)
             n4 += 1
             R.ob(rule, "%s | the comparison is asked about the pair of jobs whose records it is given" % short(v["fn"]), not bad,
                  detail="; ".join(sorted(set(bad))[:3]), site=A.site(v))
@@ -542,6 +547,21 @@ def check_C16(A, R, tier):
             R.ob("R16.1", "event_job_finished_success | %s | no changed-output error for a job that is not a validated Ephemeral" % A.sname(s),
                  not errs, detail="the error is reachable from state %s" % A.sname(s), site=A.site(errs[0]) if errs else "")
     R.ob("R16.1", "the changed-output error has exactly one construction site", len(sites) == 1, detail=str(sorted(sites)))
+    # R16.6: detection does not depend on anything else: with the job's record present and the comparison answering 'altered' the
+    # event ends in the error on every path (whatever the neighbours' states, flags or other fields are)
+    evb = A.evaluator_fn("event_job_finished_success")
+    for s in sorted(expected):
+        I, fr, out, col = forced_analysis(A, evb, {STRAT + "is_history_altered": force_bool(True),
+                                                   "std::collections::HashMap::<K, V, S, A>::get": force_hist_some(A)},
+                                          cfgd=dict(label="C16F", opaque=list(A.signal_entry_names()),
+                                                    cell_init={"lookup": fin(A.L.jobstate, [s])}))
+        rv = out.locals.get((fr.fid, 0)) if out is not None else None
+        vs = set(adt_variants(rv).keys()) if (rv is not None and rv[0] == "adt" and rv[1] == RESULT) else None
+        consulted = any(k[0] == "strategy_call" for k in I.rec.facts)
+        R.ob("R16.6", "event_job_finished_success | %s | record present, comparison says 'altered' => the call ends in the error on every path"
+             % A.sname(s), consulted and vs == {1},
+             detail="possible results %s (0 = Ok): some path accepts the report without asking the comparison" % (sorted(vs) if vs is not None else rv),
+             site=evb.span["s"])
     # R16.3: the failure reaches the dependants (they become upstream-failed)
     from rules_more import rule_failure_propagation
     rule_failure_propagation(A, R, "R16.3", "R16.3")
@@ -1369,6 +1389,9 @@ def check_C06(A, R, tier):
     rule_failure_cancels_considers(A, R, "R6.6")
     # R6.7 the history can be assembled for every way a job without output can end
     rule_history_after_any_outcome(A, R, "R6.7")
+    # ... and 'finished' is reported (and latched) only when every job is: new_history asserts it job by job (= R5.2)
+    from rules_more import rule_finished_means_all
+    rule_finished_means_all(A, R, "R6.7")
     # R6.9 (= R12.p) startup pruning is complete: a half-pruned chain of unused Ephemerals is later validated against records of
     # jobs that have no current output (internal error in the dependency check)
     from rules_history import rule_prune_fixpoint
